@@ -23,6 +23,7 @@ SAFE_LINES = [
     '@@ -1,2 +1,2 @@', '+added', '-removed', '--- a/file', '+++ b/file',
     'é', 'Жя', '中文', 'tab\there', 'nul\x00', '}', '{"a": 1}', 'end.',
     'trailing ', 'mid﻿bom',
+    'ctrl\x1az', '\u041a\u0438\u0440\u0438\u043b\u043b\u0438\u0446\u0430', '\x1a',
     'progress\rdone', 'a\rb\rc', 'cr\r    spaces', 'vt\x0bff\x0cfs\x1cgs\x1d',
     'nel\x85ls\u2028ps\u2029',
 ]
